@@ -31,8 +31,10 @@ QRMax == 64
 AttMax == 2048
 AttPrefix == 22          \* "image/jpeg:http://x.co/" is what makes an attachment valid; shorter cuts are invalid and dropped
 
-VARIABLES opts, sink, orig, len, stage, out, panic      \* orig: the evaluated length, len: what is left of it
-vars == <<opts, sink, orig, len, stage, out, panic>>
+VARIABLES opts, sink, orig, len, stage, out, panic, fails    \* orig: the evaluated length, len: what is left of it
+\* fails: the template also holds an expression that cannot be evaluated (it contributes nothing to the text and an
+\* error event); message parts are sent regardless, name / field / result actions do nothing when evaluation failed
+vars == <<opts, sink, orig, len, stage, out, panic, fails>>
 
 \* sinks whose template goes through run.EvaluateTemplate (and is therefore cut to MaxTemplateChars first)
 ViaTemplate(s) == s \in {"msg_text", "msg_qr", "msg_att", "bc_text", "bc_qr", "ivr_text", "name", "field", "result_set"}
@@ -47,6 +49,7 @@ Min(a, b) == IF a < b THEN a ELSE b
 Init == /\ opts \in [t : TemplateVals, f : FieldVals, r : ResultVals]
         /\ sink \in Sinks
         /\ orig \in Lens /\ len = orig
+        /\ fails \in BOOLEAN /\ (sink = "result_input" => ~fails)
         /\ stage = "evaluated" /\ out = -1 /\ panic = FALSE
 
 EllipsisPanics(n, limit) == "ellipsis_small" \in Quirks /\ n > limit /\ limit < 3
@@ -55,18 +58,19 @@ TemplateCut == /\ stage = "evaluated"
                /\ IF ~ViaTemplate(sink) THEN UNCHANGED <<len, panic>> /\ stage' = "cut"
                   ELSE IF EllipsisPanics(len, opts.t) THEN panic' = TRUE /\ stage' = "done" /\ UNCHANGED len
                   ELSE len' = Min(len, opts.t) /\ stage' = "cut" /\ UNCHANGED panic
-               /\ UNCHANGED <<opts, sink, orig, out>>
+               /\ UNCHANGED <<opts, sink, orig, out, fails>>
 
 SinkCut == /\ stage = "cut"
            /\ CASE sink \in {"msg_text", "bc_text"} -> out' = len
                 [] sink = "ivr_text" -> out' = IF len = 0 THEN -1 ELSE len                                  \* nothing to say: skipped
                 [] sink \in {"msg_qr", "bc_qr"} -> out' = IF len = 0 THEN -1 ELSE Min(len, QRMax)          \* empty: skipped
                 [] sink = "msg_att" -> out' = IF len > AttMax \/ len <= AttPrefix THEN -1 ELSE len        \* too long or no longer valid: skipped
-                [] sink = "name" -> out' = Min(len, opts.f)
-                [] sink = "field" -> out' = IF len = 0 THEN -1 ELSE Min(len, opts.f)                       \* the field was not set before: clearing it changes nothing
-                [] sink \in {"result_set", "result_operand", "result_input"} -> out' = Min(len, opts.r)
+                [] sink = "name" -> out' = IF fails THEN -1 ELSE Min(len, opts.f)
+                [] sink = "field" -> out' = IF len = 0 \/ fails THEN -1 ELSE Min(len, opts.f)                       \* the field was not set before: clearing it changes nothing
+                [] sink = "result_set" -> out' = IF fails THEN -1 ELSE Min(len, opts.r)
+                [] sink \in {"result_operand", "result_input"} -> out' = Min(len, opts.r)
            /\ stage' = "done"
-           /\ UNCHANGED <<opts, sink, orig, len, panic>>
+           /\ UNCHANGED <<opts, sink, orig, len, panic, fails>>
 
 Next == TemplateCut \/ SinkCut \/ (stage = "done" /\ UNCHANGED vars)
 Spec == Init /\ [][Next]_vars /\ WF_vars(Next)
